@@ -28,6 +28,20 @@ class Leaf:
         else:
             self.vars = [z3.BitVec('%s_%d' % (self.name, i), CHW) for i in range(n)]
             self.chars = list(self.vars)
+        if self.kind == 'textent':
+            # every character is written as a numeric character reference `&#xHHHHHH;`: the AST's `raw` differs from `value`,
+            # and is modelled exactly (hex digits as functions of the symbolic code point)
+            self.src_sample = ''.join('&#x%06x;' % ord(c) for c in self.sample)
+            self.raw_sample = self.src_sample
+            rc = []
+            for c in self.chars:
+                rc.extend([ord('&'), ord('#'), ord('x')])
+                for k in range(5, -1, -1):
+                    d = z3.Extract(3, 0, z3.LShR(c, 4 * k))
+                    d32 = z3.ZeroExt(CHW - 4, d)
+                    rc.append(z3.If(z3.ULT(d32, 10), d32 + 48, d32 + 87))
+                rc.append(ord(';'))
+            self.raw_chars = rc
         return self
 
     def constraints(self):
@@ -44,6 +58,8 @@ class Leaf:
                 cs.append(z3.Or(alpha, *extra))
             elif k == 'text':
                 cs.append(z3.And(z3.ULE(c, 0x10ffff), z3.Or(z3.ULT(c, 0xd800), z3.UGT(c, 0xdfff))))
+            elif k == 'textent':
+                cs.append(z3.And(z3.ULE(c, 0x10ffff), z3.Or(z3.ULT(c, 0xd800), z3.UGT(c, 0xdfff)), c != 0))
             elif k == 'str':
                 cs.append(z3.And(z3.ULE(c, 0x10ffff), z3.Or(z3.ULT(c, 0xd800), z3.UGT(c, 0xdfff))))
             elif k == 'jsstr':      # inside a double-quoted JS string literal, no escapes
@@ -121,7 +137,7 @@ class Skeleton:
         self.rerun_on_output = False        # also run the transform on its own output (idempotence)
 
     def sample_source(self):
-        d = {l.name: l.sample for l in self.leaves}
+        d = {l.name: getattr(l, 'src_sample', None) or l.sample for l in self.leaves}
         return self.template.format(**d)
 
     def render_source(self, model, template=None):
@@ -130,6 +146,8 @@ class Skeleton:
             s = l.render(model)
             if l.kind == 'text':
                 s = render_text(s)
+            elif l.kind == 'textent':
+                s = ''.join('&#x%06x;' % ord(c) for c in s)
             elif l.kind == 'str':
                 s = render_attr_str(s)
             elif l.kind == 'jsstrx':
@@ -138,7 +156,7 @@ class Skeleton:
         return (template or self.template).format(**d)
 
     def sample_alt(self, template):
-        return template.format(**{l.name: l.sample for l in self.leaves})
+        return template.format(**{l.name: getattr(l, 'src_sample', None) or l.sample for l in self.leaves})
 
     def sym_options(self):
         """-> (opts for make_visitor, json-able description builder)"""
@@ -181,22 +199,28 @@ def symbolise(program, leaves):
     """replace every occurrence of each leaf's sample inside string fields by the leaf's symbolic characters."""
     count = {l.name: 0 for l in leaves}
 
+    needles = []
+    for l in leaves:
+        if getattr(l, 'raw_sample', None):
+            needles.append((l.raw_sample, l.raw_chars, None))
+    for l in leaves:
+        if l.sample:
+            needles.append((l.sample, l.chars, l.name))
+
     def subst(s):
         if not isinstance(s, SStr) or not s.is_concrete():
             return s
         py = s.py()
-        hit = False
-        for l in leaves:
-            if l.sample and l.sample in py:
-                hit = True
-        if not hit:
+        if not any(nd in py for nd, _, _ in needles):
             return s
         out = []
         i = 0
         while i < len(py):
-            for l in leaves:
-                if l.sample and py.startswith(l.sample, i):
-                    out.extend(l.chars); i += len(l.sample); count[l.name] += 1
+            for nd, chars, nm in needles:
+                if py.startswith(nd, i):
+                    out.extend(chars); i += len(nd)
+                    if nm is not None:
+                        count[nm] += 1
                     break
             else:
                 out.append(ord(py[i])); i += 1
